@@ -87,6 +87,18 @@ func symAddressObject(i int) AddressObject {
 	return ao
 }
 
+func newLoopClientAt(be Backend, endpointPath string) *Client {
+	lb := &internal.VerifLoopback{Handler: &Handler{Backend: be, Prefix: "/dav"}}
+	if vrt.Symbolic() {
+		return &Client{ic: internal.VerifNewClient(lb, endpointPath)}
+	}
+	c, err := NewClient(lb, "http://dav.example"+endpointPath)
+	if err != nil {
+		panic(err)
+	}
+	return c
+}
+
 func newLoopClient(be Backend) (*Client, *internal.VerifLoopback) {
 	lb := &internal.VerifLoopback{Handler: &Handler{Backend: be, Prefix: "/dav"}}
 	ic := internal.VerifNewClient(lb, "/dav/")
@@ -249,15 +261,27 @@ func VerifH_C10_GetPut() {
 		}
 	}
 	card := symAddressObject(1).Card
-	be.putResult = &AddressObject{Path: "/dav/u/contacts/ab/" + vrt.StrNIn("stored-name", 1, 'a', 'z') + ".vcf", ETag: vrt.Text("stored-etag")}
+	// the backend stores the object under the request path or elsewhere
+	putPath := "/dav/u/contacts/ab/new.vcf"
+	storedPath := putPath
+	if vrt.Choose("stored-elsewhere", 2) == 1 {
+		storedPath = "/dav/u/contacts/ab/" + vrt.StrNIn("stored-name", 1, 'a', 'z') + ".vcf"
+	}
+	be.putResult = &AddressObject{Path: storedPath, ETag: vrt.Text("stored-etag")}
 	if vrt.Choose("stored-hasmodtime", 2) == 1 {
 		be.putResult.ModTime = vrt.Time("stored-modtime")
 	}
-	res, err := c.PutAddressObject(context.Background(), "/dav/u/contacts/ab/new.vcf", card)
+	// the caller may name the resource relative to the client's endpoint
+	given := putPath
+	if vrt.Choose("relative-put-name", 2) == 1 {
+		c = newLoopClientAt(be, "/dav/u/contacts/ab/")
+		given = "new.vcf"
+	}
+	res, err := c.PutAddressObject(context.Background(), given, card)
 	vrt.Assert(err == nil && res != nil, "PutAddressObject succeeds")
 	if err == nil && res != nil {
 		vrt.Assert(cardEq(be.putCard, card), "PUT delivers to the backend a card equal to the caller's")
-		vrt.Assert(len(be.paths) > 0 && be.paths[len(be.paths)-1] == "/dav/u/contacts/ab/new.vcf", "PUT is addressed to the named resource")
+		vrt.Assert(len(be.paths) > 0 && be.paths[len(be.paths)-1] == putPath, "PUT is addressed to the named resource")
 		vrt.Assert(res.Path == be.putResult.Path, "PUT hands back the backend's path")
 		vrt.Assert(res.ETag == be.putResult.ETag, "PUT hands back the backend's entity tag")
 		if be.putResult.ModTime.IsZero() {
